@@ -343,6 +343,18 @@ def _shard(seed, shard, bases, n):
         elif layout == "project":
             helper = "let helper_tbl = (from zz_h | select {h = 1})\n# %s\n" % PREFIX[pclass]
             sources, root, main_path = [("helpers.prql", helper), ("Project.prql", src)], ".", []
+            if rng.random() < 0.45:
+                # errors in SEVERAL files of one compilation (the parser reports the syntax errors of every file):
+                # each must be located in its own file's text.  The files differ in length and line count
+                pad = "".join("# helper line %d %s\n" % (k, PREFIX[pclass] if k % 2 else "") for k in range(rng.randint(0, 7)))
+                bad = rng.choice(["let other_tbl = (from zz_o | filter (x > ))\n", "let other_tbl = (from zz_o | select {a, })) \n", "let other_tbl = (from zz_o | derive y = 1 & 2)\n",
+                                  "let other_fn = func x -> x * ) 3\n", "let other_tbl = (from zz_o | take \"unclosed)\n"])
+                sources[0] = ("helpers.prql", pad + helper + bad)
+                layout = "project_two_errors"
+                if rng.random() < 0.4:
+                    pad3 = "".join("# third file, line %d\n" % k for k in range(rng.randint(0, 5)))
+                    sources.append(("extras.prql", pad3 + "let extra_tbl = (from zz_e | sort {-})\n" + ("let more = [\n" if rng.random() < 0.5 else "")))
+                token = None          # several errors: the single-token clause does not apply
             if rng.random() < 0.5:
                 sources.reverse()
         else:
@@ -366,7 +378,8 @@ def _shard(seed, shard, bases, n):
             obs["cells"].add((inj, pclass, layout))
         for (sym, det) in out:
             ascii_only = all(t.isascii() for _, t in sources)
-            shape = "%s/%s/%s/%s%s" % (inj, "ascii" if ascii_only else "multibyte", where if pclass != "ascii" else "-", layout, "/crlf" if crlf else "")
+            # with errors in several files the erroneous constructs are the helper files' own (parser errors), whatever was injected into the root
+            shape = "%s/%s/%s/%s%s" % (("multi_" + inj) if layout == "project_two_errors" else inj, "ascii" if ascii_only else "multibyte", where if pclass != "ascii" else "-", layout, "/crlf" if crlf else "")
             key = (sym, shape)
             v = {"property": "C13", "symptom": sym, "shape": shape,
                  "witness": {"sources": sources, "main_path": main_path, "target": target, "token": token, "crlf": crlf, "shape": shape} if key not in seen else None,
@@ -451,7 +464,7 @@ def run(tier, seed):
     run.coverage = {
         "evaluations": obs.get("cases", 0) + obs.get("natural_cases", 0),
         "distinct_nontrivial": len(cells),
-        "rule": "case = valid base program + one injected error (lexical / syntactic / name-resolution / type / SQL-stage) + prefix content (ASCII, 2/3/4-byte, combining) placed in a comment, string, backtick identifier, after the error or on the error's line, in a single file or a 2-file project (error in root or non-root file), optionally CRLF; "
+        "rule": "case = valid base program + one injected error (lexical / syntactic / name-resolution / type / SQL-stage) + prefix content (ASCII, 2/3/4-byte, combining) placed in a comment, string, backtick identifier, after the error or on the error's line, in a single file or a 2-file project (error in root or non-root file, or syntax errors in two or three files of one compilation), optionally CRLF; "
                 "plus a 'natural' phase: every expression kind in every syntactic slot (G-nest) and token-level mutants of corpus programs, whose errors (whatever they are) are held to the generic clauses without a known token; "
                 "distinct non-trivial = distinct (error class, prefix class, layout) cells for which the compiler returned at least one error",
         "base_programs": len(bases),
